@@ -84,6 +84,7 @@ def gen_inlines(rng, depth=0, in_link=False, in_em=False, in_strong=False, allow
                 # a run of escapes: an escaped backslash directly followed by an escaped delimiter (`\\\*` is a literal backslash and a
                 # literal star), also in the middle of emphasis, where the closing-delimiter search must skip it
                 out.append(("esc", "\\"))
+                out.append(("adj",))
                 node = ("esc", rng.choice([c for c in "*_" if c in allowed] + [rng.choice(allowed)]))
         else:
             node = ("text", gen_words(rng))
